@@ -67,7 +67,7 @@ class SGD(Optimizer):
             for i, p in enumerate(self.parameters):
                 if self.skip(p): continue
                 self.steps[i] += 1
-                grad = p._grad
+                grad = -p._grad if self.maximize else p._grad
                 
                 # Weight decay
                 if self.weight_decay != 0:
@@ -87,10 +87,7 @@ class SGD(Optimizer):
                         grad = self.momentum_buffer[i]
                 
                 # Update Parameter
-                if self.maximize:
-                    p.data += self.lr*grad
-                else:
-                    p.data -= self.lr*grad
+                p.data -= self.lr*grad
         
     
 class Adam(Optimizer):
